@@ -49,6 +49,30 @@ SWAPS = [
     ("childrenwith", r"visit_mut_children_with", "visit_mut_with"),
     ("iterrev", r"\.iter\(\)(?!\.rev)", ".iter().rev()"),
     ("clonespan", r"\bDUMMY_SP\b", "span"),
+    # second campaign: type-compatible API confusions and boundary arithmetic
+    ("litident", r"\.is_lit\(\)", ".is_ident()"),
+    ("identlit", r"\.is_ident\(\)", ".is_lit()"),
+    ("firstlast", r"\.first\(\)", ".last()"),
+    ("srcdstline", r"get_src_line\(\)", "get_dst_line()"),
+    ("dstsrcline", r"get_dst_line\(\)", "get_src_line()"),
+    ("srcdstcol", r"get_src_col\(\)", "get_dst_col()"),
+    ("dstsrccol", r"get_dst_col\(\)", "get_src_col()"),
+    ("lohi", r"\.lo\b", ".hi"),
+    ("trimstart", r"\.trim\(\)", ".trim_start()"),
+    ("startscontains", r"\.starts_with\(", ".contains("),
+    ("startsends", r"\.starts_with\(", ".ends_with("),
+    ("plusone", r" \+ 1\b", " + 0"),
+    ("minusone", r" - 1\b", " - 0"),
+    ("somenoneval", r"Some\(([a-z_]+)\)(?=[,;)\s])", "None"),
+    ("anyall", r"\.any\(", ".all("),
+    ("allany", r"\.all\(", ".any("),
+    ("skip1", r"\.skip\(1\)", ".skip(0)"),
+    ("isempty", r"\.is_empty\(\)", ".is_empty() == false"),
+    ("unwrapordefault", r"\.unwrap_or\(false\)", ".unwrap_or(true)"),
+    ("addassign", r"AssignOp::AddAssign", "AssignOp::Assign"),
+    ("binadd", r"BinaryOp::Add\b", "BinaryOp::Sub"),
+    ("eqeq", r"BinaryOp::EqEq\b", "BinaryOp::EqEqEq"),
+    ("letkind", r"VarDeclKind::Let", "VarDeclKind::Var"),
 ]
 STMT_DELETE = re.compile(r"^\s*[A-Za-z_][\w.:]*(?:\([^;]*\))?(?:\.[\w]+\([^;]*\))+;\s*$")
 
